@@ -719,7 +719,16 @@ func (ar *asyncRunner) step(res Value, done bool, ex *Exception) {
 	}
 
 	// await
-	promise := r.promiseResolve(r.getPromise(), res)
+	var promise *Object
+	if ex := r.vm.try(func() {
+		promise = r.promiseResolve(r.getPromise(), res)
+	}); ex != nil {
+		// PromiseResolve() has failed (e.g. the 'constructor' getter of the awaited promise throws):
+		// this is the result of the await expression
+		res, resType, ex := ar.gen.nextThrow(ex)
+		ar.step(res, resType == resultNormal, ex)
+		return
+	}
 	promise.self.(*Promise).addReactions(&promiseReaction{
 		typ:         promiseReactionFulfill,
 		handler:     &jobCallback{callback: ar.onFulfilled},
